@@ -8,6 +8,7 @@
 //	R ok | R err <class>                  the tool's result (class: see basmdump.ErrClass)
 //	M/C/W/D/II/IO/LK/E                    the emitted machine (canonical text, see basmdump)
 //	SIM <cp>  T  (V …  X …)*              per processor: stimuli and state after every VM.Step
+//	BSIM  BT  (BV …  BX …  X … X …)*      machines with 2+ processors: the whole machine under bondmachine.VM
 //	END
 //
 // Usage: c05 gen <cases> <steps> | c05 replay <file with S/SIM/V lines> | c05 one <file.basm>
@@ -59,6 +60,17 @@ func runCase(r *common.Rng, id int, c basmdump.Case, steps int, stims map[int][]
 			out.Line("%s", l)
 		}
 	}
+	if len(bm.Domains) >= 2 && (stims == nil || stims[-1] != nil) {
+		// the whole machine: all processors, the bonds between them, the external ports
+		var st []basmdump.Stim
+		if stims != nil {
+			st = stims[-1]
+		}
+		out.Line("BSIM")
+		for _, l := range basmdump.SimBM(r, bm, steps, st) {
+			out.Line("%s", l)
+		}
+	}
 	out.Line("END")
 	out.Flush()
 }
@@ -80,6 +92,11 @@ func main() {
 		steps, _ := strconv.Atoi(os.Args[3])
 		r := common.NewRng(common.Seed())
 		for i := 0; i < n; i++ {
+			if i%12 == 11 {
+				// outside the model (ROM+RAM code, data sections): only "no panic, unfit rejected" is judged here; C16 validates them
+				runCase(r, i, basmdump.GenExtCase(r), steps, nil)
+				continue
+			}
 			runCase(r, i, basmdump.GenCase(r), steps, nil)
 		}
 	case "replay":
@@ -103,6 +120,13 @@ func main() {
 				}
 			case strings.HasPrefix(l, "S ") || l == "S":
 				src = append(src, strings.TrimPrefix(strings.TrimPrefix(l, "S"), " "))
+			case l == "BSIM":
+				cur = -1
+				stims[-1] = []basmdump.Stim{}
+			case strings.HasPrefix(l, "BV "):
+				if cur == -1 {
+					stims[-1] = append(stims[-1], basmdump.ParseStim(l[1:]))
+				}
 			case strings.HasPrefix(l, "SIM "):
 				cur, _ = strconv.Atoi(strings.Fields(l)[1])
 				stims[cur] = []basmdump.Stim{}
